@@ -478,7 +478,10 @@ class ModuleVistor(NodeVisitor):
             if isinstance(target_obj, model.Function):
 
                 # _handleOldSchoolMethodDecoration must only be called in a class scope.
-                assert target_obj.kind is model.DocumentableKind.METHOD
+                # The method might already have been wrapped (by a decorator or by an earlier assignment): the last wrapper wins.
+                assert target_obj.kind in (model.DocumentableKind.METHOD,
+                                           model.DocumentableKind.STATIC_METHOD,
+                                           model.DocumentableKind.CLASS_METHOD)
 
                 if func_name == 'staticmethod':
                     target_obj.kind = model.DocumentableKind.STATIC_METHOD
